@@ -215,18 +215,23 @@ def main():
         elif a["exit"] not in (0, 1):
             print("  alt-config could not be analysed (recorded, not a verdict): " + a["tail"].strip().replace("\n", " | ")[:300])
     silent = []
+    warn = []  # self-test items that could not be run on this tree (anchor text moved): reported, not a verdict
     for cres in thorough["canaries"]:
         print("canary %-40s %s%s" % (cres["name"], cres["status"], (" -> " + cres.get("reported", "")) if cres["status"] == "fired" else (" (" + str(cres.get("reason", cres.get("detail", "")))[:200] + ")")))
-        if cres["status"] in ("silent", "mutant-does-not-compile"):
+        if cres["status"] == "silent":
             silent.append(cres["name"])
+        elif cres["status"] in ("mutant-does-not-compile", "unapplied"):
+            warn.append(cres["name"])
     for sres in thorough.get("seeded_changes", []):
         print("seeded %-40s %s%s" % (sres["name"], sres["status"], (" -> " + sres.get("reported", "")) if sres["status"] == "fired" else (" (" + str(sres.get("reason", sres.get("detail", "")))[:200] + ")")))
         if sres["status"] == "silent":
             silent.append(sres["name"])
     for bres in thorough.get("benign_variants", []):
         print("benign %-40s %s %s" % (bres["name"], bres["status"], str(bres.get("detail", bres.get("reason", "")))[:300]))
-        if bres["status"] in ("false-alarm", "mutant-does-not-compile"):
+        if bres["status"] == "false-alarm":
             silent.append("benign:" + bres["name"])
+        elif bres["status"] in ("mutant-does-not-compile", "unapplied"):
+            warn.append("benign:" + bres["name"])
     try:
         ev = json.load(open(evp))
         ev["tier"] = "thorough"
@@ -238,6 +243,8 @@ def main():
     except Exception as e:
         print("cannot update evidence:", e)
         final_rc = final_rc or 2
+    if warn:
+        print("SELFTEST-SKIPPED property=%s (anchor text not found or variant does not compile on this tree; not a verdict): %s" % (prop, ", ".join(warn)))
     if silent and final_rc == 0:
         print("SELFTEST-FAIL property=%s canaries that stayed silent / benign variants that were flagged: %s" % (prop, ", ".join(silent)))
         final_rc = 2
